@@ -1262,3 +1262,152 @@ Proof.
   destruct (G (values_of k ps) None) as [A B]. split; [exact A|].
   rewrite B. split; [intros [_ D]; exact D | auto].
 Qed.
+
+(** * Spans of the returned lists for a tiled input (C01 adjacency) *)
+
+(** the nodes of [l] tile [a, b): each node starts where the previous one ended
+    ([None] entries are transparent); chars nodes are as long as their text *)
+Fixpoint tiled (a b : nat) (l : items) : Prop :=
+  match l with
+  | [] => a = b
+  | None :: r => tiled a b r
+  | Some n :: r =>
+      node_pos n = Some a /\
+      (match n with NChars p e _ c => e = p + length c | _ => True end) /\
+      exists c, node_end n = Some c /\ a <= c /\ tiled c b r
+  end.
+
+Definition has_node (l : items) : bool := existsb (fun o => negb (is_none o)) l.
+
+Lemma tiled_le a b l : tiled a b l -> a <= b.
+Proof.
+  revert a. induction l as [|[n|] l IH]; intros a H; cbn [tiled] in H; [lia| |auto].
+  destruct H as (_ & _ & c & _ & L & T). apply IH in T. lia.
+Qed.
+
+Lemma tiled_app a b c l1 l2 : tiled a b l1 -> tiled b c l2 -> tiled a c (l1 ++ l2).
+Proof.
+  revert a. induction l1 as [|[n|] l1 IH]; intros a H1 H2; cbn [tiled app] in *.
+  - subst. exact H2.
+  - destruct H1 as (P & W & d & E & L & T). split; [exact P|]. split; [exact W|]. exists d. auto.
+  - auto.
+Qed.
+
+Lemma tiled_first_pos a b l : tiled a b l -> has_node l = true -> first_pos l = Some a.
+Proof.
+  revert a. induction l as [|[n|] l IH]; intros a H N; cbn [tiled has_node existsb first_pos is_none negb orb] in *.
+  - discriminate.
+  - destruct H as (P & _). exact P.
+  - apply IH; assumption.
+Qed.
+
+Lemma tiled_no_node a b l : tiled a b l -> has_node l = false -> a = b.
+Proof.
+  revert a. induction l as [|[n|] l IH]; intros a H N; cbn [tiled has_node existsb is_none negb orb] in *;
+    [exact H | discriminate | auto].
+Qed.
+
+(** a returned list [NList ps pe items]: [items] tile [a, b), [pe = b], and
+    [ps = a] unless the list consists of [None] entries only *)
+Definition part_tiled (part : node) : Prop :=
+  match part with
+  | NList ps pe its =>
+      exists a b, pe = Some b /\ tiled a b its /\ (has_node its = true \/ its = [] -> ps = Some a)
+  | _ => False
+  end.
+
+Lemma flush_tiled a b nodes : tiled a b nodes -> part_tiled (flush nodes (Some b)).
+Proof.
+  intros T. unfold flush, mk_nodelist. exists a, b. split; [destruct nodes; reflexivity|]. split; [exact T|].
+  intros [N|E].
+  - destruct nodes; [discriminate|]. apply tiled_first_pos with (b := b); assumption.
+  - subst nodes. cbn [tiled] in T. subst. reflexivity.
+Qed.
+
+Section Tiling.
+  Variable m : matcher.
+  Variable ms : option nat.
+  Variable keep skipnone : bool.
+  Variable lm : nmode.
+  Hypothesis m_ok : matcher_ok m.
+
+  Lemma piece_tiled p chars a b : a <= b -> b <= length chars ->
+    tiled (p + a) (p + b) (if nonempty (slice chars a b) then [mk_piece lm p chars a b] else []).
+  Proof.
+    intros Hab Hb. destruct (slice chars a b) eqn:S0; cbn [nonempty].
+    - cbn [tiled]. assert (length (slice chars a b) = 0) by (rewrite S0; reflexivity).
+      rewrite slice_length in H by exact Hb. lia.
+    - unfold mk_piece. cbn [tiled node_pos node_end]. split; [reflexivity|].
+      split; [rewrite slice_length by exact Hb; lia|]. exists (p + b). repeat split; lia.
+  Qed.
+
+  Lemma chars_loop_tiled p md chars : forall fuel prev parts pend parts' pend' a,
+    chars_loop m ms keep lm fuel (NChars p (p + length chars) md chars) p chars prev parts pend = Ok (parts', pend') ->
+    prev <= length chars ->
+    ((prev = 0 /\ tiled a p pend) \/ (0 < prev /\ pend = [] /\ a = p + prev)) ->
+    Forall part_tiled parts ->
+    Forall part_tiled parts' /\ exists a', tiled a' (p + length chars) pend'.
+  Proof.
+    induction fuel as [|f IH]; intros prev parts pend parts' pend' a H PL INV A; [discriminate|].
+    cbn [chars_loop] in H.
+    destruct (next_split m ms (length parts) chars prev) as [[i j]|] eqn:NS.
+    - apply next_split_some in NS. pose proof (m_ok _ _ _ _ NS) as JL.
+      destruct (Nat.leb prev i && Nat.ltb i j) eqn:G; cbn [negb] in H; [|discriminate].
+      apply andb_true_iff in G. destruct G as [G1 G2]. apply Nat.leb_le in G1. apply Nat.ltb_lt in G2.
+      pose proof (piece_tiled p chars prev i G1 ltac:(lia)) as PT.
+      destruct (Nat.eqb prev 0) eqn:P0.
+      + apply Nat.eqb_eq in P0. destruct INV as [[_ T]|[C _]]; [|lia]. subst prev.
+        assert (T1 : tiled a (p + i) (if nonempty (slice chars 0 i) then pend ++ [mk_piece lm p chars 0 i] else pend)).
+        { destruct (nonempty (slice chars 0 i)).
+          - eapply tiled_app; [exact T|]. rewrite Nat.add_0_r in PT. exact PT.
+          - cbn [tiled] in PT. replace (p + i) with p by lia. exact T. }
+        eapply (IH j _ [] _ _ (p + j)) in H; [exact H | lia | right; repeat split; lia |].
+        destruct (_ || keep); [|exact A]. apply Forall_app. split; [exact A|]. constructor; [|constructor].
+        apply flush_tiled with (a := a). exact T1.
+      + apply Nat.eqb_neq in P0. destruct INV as [[C _]|(_ & E & _)]; [congruence|]. subst pend.
+        eapply (IH j _ [] _ _ (p + j)) in H; [exact H | lia | right; repeat split; lia |].
+        destruct (_ || keep); [|exact A]. apply Forall_app. split; [exact A|]. constructor; [|constructor].
+        apply flush_tiled with (a := p + prev). exact PT.
+    - destruct (Nat.eqb prev 0) eqn:P0.
+      + apply Nat.eqb_eq in P0. destruct INV as [[_ T]|[C _]]; [|lia]. inversion H; subst. split; [exact A|].
+        exists a. eapply tiled_app; [exact T|]. cbn [tiled node_pos node_end]. repeat split; try reflexivity.
+        exists (p + length chars). repeat split; lia.
+      + apply Nat.eqb_neq in P0. destruct INV as [[C _]|(_ & E & _)]; [congruence|]. subst pend.
+        inversion H; subst. split; [exact A|]. exists (p + prev).
+        pose proof (piece_tiled p chars prev (length chars) PL ltac:(lia)) as PT.
+        destruct (nonempty (slice chars prev (length chars))); exact PT.
+  Qed.
+
+  Lemma split_loop_tiled : forall l parts pend res a c b,
+    split_loop m ms keep skipnone lm (Some b) l parts pend = Ok res ->
+    tiled a c pend -> tiled c b l -> Forall part_tiled parts -> Forall part_tiled res.
+  Proof.
+    induction l as [|o l IH]; intros parts pend res a c b H TP TL A.
+    - cbn [split_loop] in H. inversion H; subst. cbn [tiled] in TL. subst c.
+      destruct (_ || keep); [|exact A]. apply Forall_app. split; [exact A|]. constructor; [|constructor].
+      apply flush_tiled with (a := a). exact TP.
+    - destruct o as [nd|].
+      + cbn [tiled] in TL. destruct TL as (P & W & d & E & L & T).
+        assert (STEP : tiled a d (pend ++ [Some nd])).
+        { eapply tiled_app; [exact TP|]. cbn [tiled]. split; [exact P|]. split; [exact W|]. exists d. auto. }
+        destruct nd; cbn [split_loop] in H; try (eapply IH; [exact H|exact STEP|exact T|exact A]; fail); [|discriminate].
+        cbn [node_pos node_end] in P, E. inversion P; inversion E; subst. clear P E.
+        destruct (chars_loop m ms keep lm (S (length chars)) (NChars c (c + length chars) m0 chars) c chars 0 parts pend)
+          as [[parts1 pend1]|] eqn:CL; [|discriminate].
+        eapply chars_loop_tiled in CL; [|lia|left; split; [reflexivity|exact TP]|exact A].
+        destruct CL as [A1 [a' T1]]. eapply IH; [exact H|exact T1|exact T|exact A1].
+      + cbn [split_loop] in H. cbn [tiled] in TL. eapply IH; [exact H| |exact TL|exact A].
+        destruct skipnone; [exact TP|]. eapply tiled_app; [exact TP|]. cbn [tiled]. reflexivity.
+  Qed.
+End Tiling.
+
+(** C18_list_spans: for an input whose nodes tile [a, b) with [pos_end = b],
+    every returned list's nodes tile its own [pos, pos_end) *)
+Theorem split_list_spans m ms keep skipnone lm a b l parts :
+  matcher_ok m -> tiled a b l ->
+  split_at_chars m ms keep skipnone lm (Some b) l = Ok parts ->
+  Forall part_tiled parts.
+Proof.
+  intros MO T H. eapply (split_loop_tiled m ms keep skipnone lm MO l [] [] parts a a b); [exact H| |exact T|constructor].
+  cbn [tiled]. reflexivity.
+Qed.
